@@ -350,7 +350,10 @@ def verify_group(ctx, g: Group):
                     'class': c, 'file': sl.get('file', ''), 'line': sl.get('line', ''), 'function': sl.get('function', '')})
     g.result.update({'engine': engine, 'seconds': round(dt, 2), 'log': [(e, s, round(t, 2)) for e, s, t in log],
                      'obligations': obl, 'cbmc': ' '.join(cbmc_cmd(g, binary, engine))})
-    if not reach_seen or not reach_failed:
+    has_primary_failure = any(o['status'] == 'FAILURE' and o['class'] == 'primary' for o in obl)
+    if (not reach_seen or not reach_failed) and not has_primary_failure:
+        # (when a primary obligation is refuted the run is not vacuous even if the end of the harness became unreachable,
+        #  e.g. a mutated loop that can no longer exit under its invariant)
         raise Undecided('vacuity guard: the reachability assertion of %s did not fail (precondition unsatisfiable '
                         'or harness does not reach its end)' % g.name)
     npost = sum(1 for o in obl if o['class'] == 'primary' and ('postcondition' in o['name'] or 'assertion' in o['name']))
